@@ -188,7 +188,8 @@ def _stream(ctx, modes, env=None, seed=None, tag=''):
     pid = ctx.pid
     for s in doc['suites']:
         mode = s['suite'].replace('stream-', '')
-        mine = [f for f in s['oracle_failures'] if f'{pid}:' in f['property_failure']]
+        labels = [pid] + list(ctx.spec.get('also_count', []))     # e.g. C15/C16 own the path part of the tree claim C01
+        mine = [f for f in s['oracle_failures'] if any(f'{l}:' in f['property_failure'] for l in labels)]
         ctx.parts.append(dict(name=f"stream-corr({mode}{tag})", evaluations=s['evaluations'], distinct_nontrivial=s['distinct_nontrivial'],
                               rule=s['rule'], samples=[], distribution=s['distribution'], wall_s=s.get('wall_s'),
                               model_disagreements=s['disagreement_count'], impl_property_failures=s['oracle_failure_count'],
@@ -238,14 +239,14 @@ def _e2e(ctx, modes, fn_name='filter_case', gen_mode=None, label=None):
         raise C.Infra('the CLI of /repo does not build: ' + out[-300:])
     pid = ctx.pid
     for mode in modes:
-        n = E2E_COUNTS[ctx.tier][mode]
+        n = E2E_COUNTS[ctx.tier][mode] * (ctx.spec.get('e2e_scale', 1) if fn_name == 'filter_case' else 1)
         t0 = time.time()
         prefer = ctx.spec.get('e2e_prefer') if mode == 'filter' and fn_name == 'filter_case' else None
         if prefer:
             # the property is about particular options: draw four times as many option sets and keep those that use them
             # (cases using several of them first), filling up with the rest
             pool = e2e.gen_cases(gen_mode or mode, ctx.seed, 4 * n)
-            score = lambda c: -sum(1 for f in prefer if f in c['cli'])
+            score = lambda c: -sum(c['cli'].count(f) for f in prefer)      # repeated options (two --path-regex …) rank higher
             cases = sorted(pool, key=lambda c: (score(c), c['id']))[:n]
         else:
             cases = e2e.gen_cases(gen_mode or mode, ctx.seed, n)
@@ -258,7 +259,7 @@ def _e2e(ctx, modes, fn_name='filter_case', gen_mode=None, label=None):
             if r.get('error'):
                 errors.append((r['id'], r['error']))
             for (p, msg) in r['failures']:
-                if p == pid or p == 'ALL':
+                if p == pid or p == 'ALL' or p in ctx.spec.get('also_count', []):
                     m = re.match(r'\[([a-z0-9-]+)\]', msg)
                     if m and m.group(1) in known_classes:
                         kf = known_classes[m.group(1)]
